@@ -870,10 +870,13 @@ func (c *Compiler) compilePipe(node *ast.Pipe) error {
 	if err := c.compile(exprs[0]); err != nil {
 		return err
 	}
-	// Set the pipe active flag for the remainder of the pipe
-	c.current.pipeActive = true
+	// Set the pipe active flag for the remainder of the pipe. The flag is
+	// cleared on the same code object it was set on, also when compiling a
+	// stage fails inside a nested function
+	code := c.current
+	code.pipeActive = true
 	defer func() {
-		c.current.pipeActive = false
+		code.pipeActive = false
 	}()
 	// Iterate over the remaining expressions. Each should eval to a function.
 	// TODO: may need to compile to a partial as well.
